@@ -28,6 +28,7 @@ REQUIRED = {"select.deselected_not_called": {"quick": 3000, "thorough": 150000},
             "select.container_with_selected_not_skipped": {"quick": 500, "thorough": 25000},
             "local.unselected_run_emits_nothing": {"quick": 3000, "thorough": 150000},
             "nontrivial_cases": {"quick": 300, "thorough": 15000}}
+REQUIRED_SEEN = {"outline_tag_placeholder": ["<t>", "<row.index>", "<examples.index>", "<row.id>"], "dialect": ["v1", "v2", "none"]}
 NSHARDS = {"quick": 16, "thorough": 16}
 
 
@@ -116,9 +117,16 @@ def run(spec, mon):
     rng = random.Random(spec["seed"])
     n = 220 if tier == "quick" else 9000
     for i in range(n):
-        gen = {"p_tag": 0.6, "p_param_tag": 0.5, "p_nonpass": 0.15, "p_wip": 0.1, "max_rules": 2,
-               "p_empty_examples": 0.0, "p_stepless": 0.0}     # childless outlines/scenarios are out of scope
+        gen = {"p_tag": 0.6, "p_param_tag": 0.5, "p_nonpass": 0.15, "p_wip": 0.1, "max_rules": 2, "p_reserved_tag": 0.4,
+               "p_empty_examples": 0.0, "p_stepless": 0.1}     # row-less outlines are out of scope; a step-less scenario
+        # (title and tags only) is a scenario: when de-selected it has to be reported skipped like any other
         case = RB.gen_case(rng, gen=gen, p_stop=0.1, p_dry=0.15, p_noskipped=0.5)
+        if i % 3 == 0:
+            # expressions that refer to tags rendered from the special placeholders <row.index> <examples.index> <row.id>
+            ast, args = RB.random_expr(rng, tags=["a", "b", "c", "r1", "r2", "q1.1", "q1.2", "q2.1"])
+            if ast is not None:
+                case["cfg"]["tags"] = ast
+                case["args"] = args + [a for a in case["args"] if not a.startswith("--tags")]
         # make sure an expression is in force most of the time
         tries = 0
         while case["cfg"]["tags"] is None and tries < 3 and i % 10:
@@ -126,6 +134,10 @@ def run(spec, mon):
             case["cfg"]["tags"] = ast
             case["args"] = args + [a for a in case["args"] if not a.startswith("--tags")]
             tries += 1
+        blob = repr(case["program"]["features"])
+        for ph in ("<row.index>", "<examples.index>", "<row.id>", "<t>"):
+            if ph in blob:
+                mon.seen("outline_tag_placeholder", ph)
         run_case(lab, mon, case, sample=(i == 1 and spec["shard"] < 2))
 
 
